@@ -160,6 +160,10 @@ type Conn struct {
 	Writes       int
 	ReadFaultAt  int // 1-based index of the ReadMessage call that fails (0 = none)
 	WriteFaultAt int // 1-based index of the transport write that fails (0 = none)
+	// WriteFaultSoft: the injected write failure leaves the receiving direction intact (gorilla keeps failing every
+	// later write of the connection, reads go on working): a send buffer that timed out, a half-closed socket
+	WriteFaultSoft bool
+	WriteFaulted   bool // the injected write failure has happened
 }
 
 // Pipe creates a connected pair.
@@ -390,7 +394,13 @@ func (c *Conn) writeFrame(f Frame, control bool) error {
 		return ErrCloseSent
 	}
 	c.Writes++
+	if c.WriteFaultAt == c.Writes && c.WriteFaultSoft {
+		c.WriteFaulted = true
+		c.writeErr = &net.OpError{Op: "write", Net: "fake", Err: errors.New("write failed, receiving direction intact (injected)")}
+		return c.writeErr
+	}
 	if c.WriteFaultAt == c.Writes || (c.FaultWrites && simrt.Choose("ws-write-fault:"+c.Name, 2) == 1) {
+		c.WriteFaulted = true
 		c.linkDown = true
 		c.peer.linkDown = true
 		c.writeErr = &net.OpError{Op: "write", Net: "fake", Err: errors.New("broken pipe (injected)")}
